@@ -74,10 +74,30 @@ func (g *opGen) sels(typ string, depth int, sc *scope, root bool) []*Sel {
 	switch td.Kind {
 	case KObject, KInterface:
 		out = g.objectSels(td, depth, sc, root)
-		if td.Kind == KInterface && g.k["inlinefragments"] && depth < g.maxDepth {
-			for _, m := range g.c.Super.PossibleTypes(typ) {
-				if g.r.Chance(1, 2) {
-					out = append(out, g.fragmentOn(m, depth, sc))
+		if td.Kind == KInterface && depth < g.maxDepth {
+			forced := ""
+			// a field that carries @requires on one implementer, selected on the interface itself
+			// together with a fragment on that implementer
+			for _, fd := range td.Fields {
+				for _, m := range g.c.Super.PossibleTypes(typ) {
+					if forced == "" && g.c.RequiresOf(m, fd.Name) != "" && g.r.Chance(2, 3) {
+						out = append(out, g.field(td, fd, depth, sc))
+						forced = m
+					}
+				}
+			}
+			// a list-of-objects field declared by the interface, selected on the interface
+			for _, fd := range td.Fields {
+				if fd.Type.IsList() && !g.c.Super.IsLeaf(fd.Type.Base()) && g.budget > 0 && g.r.Chance(1, 2) {
+					out = append(out, g.field(td, fd, depth, sc))
+					break
+				}
+			}
+			if g.k["inlinefragments"] || forced != "" {
+				for _, m := range g.c.Super.PossibleTypes(typ) {
+					if m == forced || (g.k["inlinefragments"] && g.r.Chance(1, 2)) {
+						out = append(out, g.fragmentOn(m, depth, sc))
+					}
 				}
 			}
 		}
